@@ -1087,3 +1087,124 @@ Theorem delete_by_keypath_w_enc v ks buf : wfb v = true -> top_ok v ->
 Proof.
   intros Hw Ht Hres. unfold delete_by_keypath_w. rewrite (is_jsonb_enc v Hw Ht). apply delete_by_keypath_b_enc; assumption.
 Qed.
+
+(* ---- deleting never grows a document: the size hypothesis above always holds ---- *)
+Lemma wf_size_arr_shrink l l' : wf_size (VArr l) = true -> lenN l' <= lenN l -> sum_len l' <= sum_len l ->
+  Forall (fun v => wf_size v = true) l' ->
+  wf_size (VArr l') = true /\ lenN (payload (VArr l')) <= lenN (payload (VArr l)).
+Proof. rewrite !wf_size_arr_iff, !plen_arr. intros (A & B & C) H1 H2 H3. repeat split; try lia. exact H3. Qed.
+Lemma wf_size_obj_shrink o o' : wf_size (VObj o) = true -> lenN o' <= lenN o -> sum_keys o' <= sum_keys o ->
+  sum_len (vals o') <= sum_len (vals o) -> Forall mem_size o' ->
+  wf_size (VObj o') = true /\ lenN (payload (VObj o')) <= lenN (payload (VObj o)).
+Proof. rewrite !wf_size_obj_iff, !plen_obj. intros (A & B & C) H1 H2 H3 H4. repeat split; try lia. exact H4. Qed.
+
+Lemma sum_len_cons x l : sum_len (x :: l) = lenN (payload x) + sum_len l. Proof. reflexivity. Qed.
+Lemma sum_keys_cons (kv : list N * value) o : sum_keys (kv :: o) = lenN (fst kv) + sum_keys o. Proof. reflexivity. Qed.
+Lemma vals_app a b : vals (a ++ b) = vals a ++ vals b. Proof. apply map_app. Qed.
+Lemma vals_cons (kv : list N * value) o : vals (kv :: o) = snd kv :: vals o. Proof. reflexivity. Qed.
+
+Lemma del_keypath_size : forall ft x ks x', wfb x = true -> del_keypath ft x ks = Some x' ->
+  wf_size x' = true /\ lenN (payload x') <= lenN (payload x).
+Proof.
+  induction ft as [|f IH]; intros v ks v' Hw H; cbn [del_keypath] in H; [discriminate H|].
+  pose proof (wfb_size v Hw) as Hs.
+  destruct v as [|b|s|nm|l|o]; try discriminate H; destruct ks as [|k r]; try discriminate H.
+  - destruct k as [i|n|n]; try discriminate H.
+    set (j := resolve i (lenZ l)) in *.
+    destruct ((j <? 0) || (lenZ l <=? j))%Z eqn:C; [discriminate H|].
+    destruct (nth_opt_some l (Z.to_nat j)) as [x Hx]; [unfold lenZ in C; lia|].
+    destruct (nth_opt_split l _ x Hx) as (pre & post & El & Lp & _).
+    pose proof (wf_size_arr l Hs) as Hall. destruct (wf_arr l Hw) as [Hallw _].
+    rewrite Hx, <- Lp, El in H. rewrite El in Hall, Hallw.
+    apply Forall_app in Hall. destruct Hall as [Hp Hq]. inversion Hq as [|? ? Hxs Hq']; subst.
+    apply Forall_app in Hallw. destruct Hallw as [_ Hqw]. inversion Hqw as [|? ? Hxw _]; subst.
+    destruct r as [|k2 r2].
+    + rewrite remove_nth_mid in H. injection H as <-. apply (wf_size_arr_shrink _ _ Hs).
+      * rewrite !lenN_app, lenN_cons. lia.
+      * rewrite !sum_len_app, sum_len_cons. lia.
+      * apply Forall_app. split; assumption.
+    + destruct (is_container x); [|discriminate H].
+      destruct (del_keypath f x (k2 :: r2)) as [x'|] eqn:E; [|discriminate H]. rewrite replace_nth_mid in H. injection H as <-.
+      destruct (IH x _ x' Hxw E) as [S1 S2]. apply (wf_size_arr_shrink _ _ Hs).
+      * rewrite !lenN_app, !lenN_cons. lia.
+      * rewrite !sum_len_app, !sum_len_cons. lia.
+      * apply Forall_app. split; [assumption|]. constructor; assumption.
+  - assert (G : forall n, (match r with
+                 | [] => Some (VObj (assoc_remove n o))
+                 | _ :: _ => match assoc_lookup n o with
+                             | Some x => if is_container x then match del_keypath f x r with
+                                                                | Some x' => Some (VObj (assoc_replace n x' o))
+                                                                | None => None end else None
+                             | None => Some (VObj o) end end) = Some v' ->
+              wf_size v' = true /\ lenN (payload v') <= lenN (payload (VObj o))).
+    { clear H. intros n H. pose proof (proj1 (wf_size_obj_iff o) Hs) as (_ & _ & Hms).
+      destruct (obj_find n o (obj_sorted o Hw)) as [Hne|(pre & x & post & Eo & Hp & Hq)].
+      - rewrite (remove_ne n o Hne), (lookup_ne n o Hne) in H. destruct r; injection H as <-; (split; [exact Hs|lia]).
+      - rewrite Eo in H. rewrite (remove_mid n pre x post Hp Hq), (lookup_mid n pre x post Hp) in H.
+        rewrite Eo in Hms. apply Forall_app in Hms. destruct Hms as [Hm1 Hm2]. inversion Hm2 as [|? ? [Hk Hxs] Hm3]; subst. cbn [fst snd] in *.
+        destruct r as [|k2 r2].
+        + injection H as <-. apply (wf_size_obj_shrink _ _ Hs).
+          * rewrite !lenN_app, lenN_cons. lia.
+          * rewrite !sum_keys_app, sum_keys_cons. lia.
+          * rewrite !vals_app, vals_cons, !sum_len_app, sum_len_cons. lia.
+          * apply Forall_app. split; assumption.
+        + destruct (is_container x); [|discriminate H].
+          destruct (del_keypath f x (k2 :: r2)) as [x'|] eqn:E; [|discriminate H].
+          rewrite (replace_mid n x' pre x post Hp Hq) in H. injection H as <-.
+          assert (Hxw : wfb x = true) by (apply (wfb_obj_elem _ x Hw); rewrite vals_app, vals_cons; apply in_or_app; right; left; reflexivity).
+          destruct (IH x _ x' Hxw E) as [S1 S2]. apply (wf_size_obj_shrink _ _ Hs).
+          * rewrite !lenN_app, !lenN_cons. lia.
+          * rewrite !sum_keys_app, !sum_keys_cons. cbn [fst]. lia.
+          * rewrite !vals_app, !vals_cons, !sum_len_app, !sum_len_cons. cbn [snd]. lia.
+          * apply Forall_app. split; [assumption|]. constructor; [split; assumption|assumption]. }
+    destruct k as [i|n|n]; try discriminate H; apply (G n H).
+Qed.
+
+Lemma delete_by_keypath_size v ks y : wfb v = true -> delete_by_keypath_t v ks = Ok y -> wf_size y = true.
+Proof.
+  intros Hw H. unfold delete_by_keypath_t in H. destruct v as [|b|s|n|l|o]; try discriminate H.
+  - destruct (del_keypath _ _ _) as [v'|] eqn:E; injection H as <-; [apply (del_keypath_size _ _ _ _ Hw E)|apply wfb_size; exact Hw].
+  - destruct (del_keypath _ _ _) as [v'|] eqn:E; injection H as <-; [apply (del_keypath_size _ _ _ _ Hw E)|apply wfb_size; exact Hw].
+Qed.
+
+Theorem delete_by_keypath_b_enc' v ks buf : wfb v = true ->
+  delete_by_keypath_b (enc v) ks buf = res_map (fun y => buf ++ enc y) (delete_by_keypath_t v ks).
+Proof. intros Hw. apply delete_by_keypath_b_enc; [exact Hw|]. intros y. apply delete_by_keypath_size. exact Hw. Qed.
+Theorem delete_by_keypath_w_enc' v ks buf : wfb v = true -> top_ok v ->
+  delete_by_keypath_w (enc v) ks buf = res_map (fun y => buf ++ enc y) (delete_by_keypath_t v ks).
+Proof. intros Hw Ht. apply delete_by_keypath_w_enc; [exact Hw|exact Ht|]. intros y. apply delete_by_keypath_size. exact Hw. Qed.
+
+(* every editor here keeps the result well-formed (shape: TreeWf / TreeWf2; size: above), so edits can be chained *)
+Lemma strip_nulls_wfb v : wfb v = true -> wfb (strip_nulls_t v) = true.
+Proof.
+  intros Hw. unfold wfb in *. apply andb_true_iff in Hw. destruct Hw as [H1 H2]. apply andb_true_iff. split.
+  - apply wf_strip_nulls. exact H1.
+  - apply (strip_size v H2).
+Qed.
+Lemma delete_by_keypath_wfb v ks y : wfb v = true -> delete_by_keypath_t v ks = Ok y -> wfb y = true.
+Proof.
+  intros Hw H. unfold wfb. apply andb_true_iff. split.
+  - apply (wf_delete_by_keypath v ks y); [|exact H]. unfold wfb in Hw. apply andb_true_iff in Hw. apply Hw.
+  - apply (delete_by_keypath_size v ks y Hw H).
+Qed.
+
+(* ================================================================ append-only (C17) *)
+(* on encodings, what an editor appends does not depend on what the buffer already holds *)
+Lemma res_map_frame {A} (f : A -> list N) (r : res A) buf :
+  res_map (fun y => buf ++ f y) r = res_map (app buf) (res_map (fun y => [] ++ f y) r).
+Proof. destruct r; reflexivity. Qed.
+Theorem edit2_appends v : wfb v = true -> top_ok v -> forall buf,
+  (forall ks, object_delete_w (enc v) ks buf = res_map (app buf) (object_delete_w (enc v) ks [])) /\
+  (forall ks, object_pick_w (enc v) ks buf = res_map (app buf) (object_pick_w (enc v) ks [])) /\
+  strip_nulls_w (enc v) buf = res_map (app buf) (strip_nulls_w (enc v) []) /\
+  (forall ks, delete_by_keypath_w (enc v) ks buf = res_map (app buf) (delete_by_keypath_w (enc v) ks [])) /\
+  (forall x key upd, wfb x = true -> top_ok x -> (forall y, object_insert_t v key x upd = Ok y -> wf_size y = true) ->
+     object_insert_w (enc v) key (enc x) upd buf = res_map (app buf) (object_insert_w (enc v) key (enc x) upd [])).
+Proof.
+  intros Hw Ht buf. repeat split; intros.
+  - rewrite !(object_delete_w_enc v _ _ Hw Ht). apply res_map_frame.
+  - rewrite !(object_pick_w_enc v _ _ Hw Ht). apply res_map_frame.
+  - rewrite !(strip_nulls_w_enc v _ Hw Ht). reflexivity.
+  - rewrite !(delete_by_keypath_w_enc' v _ _ Hw Ht). apply res_map_frame.
+  - rewrite !(object_insert_w_enc v x key upd _ Hw Ht) by assumption. apply res_map_frame.
+Qed.
